@@ -8,7 +8,7 @@ import subprocess
 from vlib import core, runner
 from .base import Check
 
-OP_PREFIXES = ("C ", "N ", "D ", "X ", "S ", "T ", "L", "Q ", "A ", "R ", "G")
+OP_PREFIXES = ("C ", "N ", "D ", "X ", "S ", "T ", "L", "Q", "A ", "R ", "G", "V")
 
 
 # Harmless rewrites of the anchored code the check was run against (mutated object files in a scratch copy of /repo,
@@ -31,6 +31,10 @@ SEEDED_CHANGES_CAUGHT = [
     ("M5", "RemoveDependency keeps the removed dependency in the re-registered group", "implementation_aborted (VERIFY) / graph_equals_live_set"),
     ("M6", "Unregister leaves the child's dependencies in the old group", "implementation_aborted / graph_equals_live_set"),
     ("M7", "group key as plain String: parent name vs redundancy-group name collide", "reachable_iff_* (name collisions in the generators)"),
+    ("C07-7", "DependencyGroup::Hash/Equal without the redundancy group name: a plain group and a redundancy group with the same composite keys merge",
+     "reachable_iff_* / graph_equals_live_set / edges_equal_live_set / implementation_aborted (generator 'shared': identical key sets, different grouping)"),
+    ("S1", "Dependency::Stop skips RemoveReverseDependency for runtime removals (self-test)", "edges_equal_live_set"),
+    ("S2", "Dependency::GetPeriod() answers nullptr (self-test)", "reachable_iff_* (closed periods follow from the D/T lines, the object's answer is only compared)"),
 ]
 
 
@@ -42,7 +46,8 @@ class C07(Check):
                          "self_dependency_rejected", "terminates_on_accepted",
                          "acyclic_iff_no_closed_walk", "no_cycle_iff_ranked", "cycle_check_iff_no_cycle",
                          "runtime_add_refused_unchanged", "runtime_adds_stay_acyclic", "model_runtime_add_meets_spec",
-                         "registry_refines_set", "fresh_load_spec", "runtime_equals_fresh_load"]
+                         "registry_refines_set", "fresh_load_spec", "runtime_equals_fresh_load",
+                         "history_step_meets_spec", "history_meets_spec", "history_stays_acyclic"]
     technique = ("Lean 4 proof (decision logic stated outright, fixed-point uniqueness by induction on a ranking, DFS invariant "
                  "'finished list is topologically sorted') over a hand-written model; correspondence by exhaustive + random differential "
                  "execution of Checkable::IsReachable on real Host/Service/Dependency objects and of the config-load path "
@@ -56,14 +61,23 @@ class C07(Check):
                   "rejects self-dependencies, and on accepted configurations IsReachable's recursion depth is bounded independently of the limit; "
                   "accepted <=> no non-empty closed walk (standard cycle definition, pigeonhole formalised); a runtime addition closing a cycle is refused "
                   "and leaves the graph unchanged; for every sequence of runtime AddDependency/RemoveDependency the per-child views equal the live "
-                  "dependencies grouped by key and the registry equals what a fresh load of the live set builds. "
+                  "dependencies grouped by key and the registry equals what a fresh load of the live set builds; WHOLE HISTORIES (history_meets_spec): for every "
+                  "set of checkables and every sequence of loads / runtime creations (any batches, cyclic ones refused), removals, state changes, period "
+                  "changes, queries and edge read-outs from the empty configuration, the specification predicate over the recorded history finds no "
+                  "violated clause - acyclicity of the registered graph is an invariant established by the cycle checker (history_stays_acyclic), not a hypothesis; "
+                  "GetParents/GetChildren/GetReverseDependencies equal the live set after every history. "
                   "The model is tied to the code by running the real IsReachable for all checkables x 3 aspects on exhaustive small graphs x state "
                   "assignments, random graphs with runtime add/remove, chains around the 256 limit, and by loading generated configurations "
                   "(one fresh process each) and comparing accepted/'Dependency cycle' with the model; the same specification predicates "
-                  "(fixed-point equation, live dependency set, cycle => rejected) are evaluated on the implementation's own observations")
+                  "(fixed-point equation, live dependency set, cycle => rejected, refused => unchanged, parents/children/reverse dependencies = live set) are "
+                  "evaluated on the implementation's own observations, step by step with the same `specObs` the whole-history theorem is about")
     level_note = ("Trusted: Lean kernel (+ propext, Classical.choice, Quot.sound), the model's correspondence being sampled, harness/driver. "
                   "Compared observables are the denotation the property names (reachability per aspect, live dependencies per checkable, live dependencies "
-                  "grouped by redundancy group, accepted/'Dependency cycle'); group objects, keys, totals and registry size are statistics (repr_agree/repr_differ). "
+                  "grouped by redundancy group, GetParents/GetChildren/GetReverseDependencies per checkable, accepted/'Dependency cycle'); group objects, keys, totals "
+                  "and registry size are statistics (repr_agree/repr_differ). Whether a dependency's period is closed is derived from the D/T lines (which pool "
+                  "period the dependency names, whether that period was set inside/outside); the value read from the Dependency object is compared, not trusted. "
+                  "The reachability equation is evaluated inside the property's scope only (queryInScope: candidate ranking certifies acyclic and <= 256 levels); "
+                  "an implementation that dies (VERIFY, segmentation fault) on a generated operation sequence is reported with that sequence. "
                   "Negative controls NC1-NC6 (see NEGATIVE_CONTROLS) pass; the harness uses public API only. "
                   "Acyclicity is expressed by a ranking certificate; a ranking excludes every cycle (proved) and exists whenever peeling empties the graph (proved). "
                   "The registry (Register/Unregister/AddDependency/RemoveDependency/PushDependencyGroupsToRegistry) is modelled and proved equal to a "
@@ -71,8 +85,10 @@ class C07(Check):
                   "group's identity. Not modelled: OnReachabilityChanged/OnChildRegistered/OnChildRemoved fan-out, Icinga DB identifiers, the text of the cycle error.")
     trusted_base = [
         "modelled, not verified: Dependency::IsAvailable, DependencyGroup::GetState, Checkable::IsReachable, DependencyCycleChecker/"
-        "BeforeOnAllConfigLoadedHandler, per-checkable group keys and registry size; TimePeriod::IsInside enters as an oracle input "
-        "(the implementation's own value per dependency on every query line)",
+        "BeforeOnAllConfigLoadedHandler, OnAllConfigLoaded/Stop (reverse dependencies), per-checkable group keys and registry size; "
+        "TimePeriod::IsInside itself is C08's matter: the harness sets each pool period inside/outside and the model takes that setting",
+        "history model: GetParents is read from the live dependencies of the child (not through the registry model's groups); the link "
+        "registry view <-> groupDeps used by IsReachable is `registry_refines_set` (membership), not a theorem about `reachable`",
         "`Ranked`/`RankedS` hypotheses are read as 'acyclic': `ranked_excludes_cycles` (ranking => no cycle) and "
         "`cycle_check_iff_acyclic` (peeling empties the graph <=> accepted) are proved; 'no cycle => peeling empties' is the classical step not formalised",
     ]
@@ -206,7 +222,7 @@ class C07(Check):
         if not loaded:
             return None
         return (["C cfg fresh"] + nodes + [live[i] for i in sorted(live)] + ["L"] +
-                [states[i] for i in sorted(states)] + [periods[i] for i in sorted(periods)] + ["G", "Q -"])
+                [states[i] for i in sorted(states)] + [periods[i] for i in sorted(periods)] + ["G", "V", "Q -"])
 
     @staticmethod
     def _denote_g(line):
@@ -241,7 +257,8 @@ class C07(Check):
     def _final_obs(cls, out_lines):
         g = [l for l in out_lines if l.startswith("G |")]
         q = [l for l in out_lines if l.startswith("Q ")]
-        return (cls._denote_g(g[-1]) if g else None, cls._denote_q(q[-1]) if q else None)
+        v = [l for l in out_lines if l.startswith("V |")]
+        return (cls._denote_g(g[-1]) if g else None, cls._denote_q(q[-1]) if q else None, v[-1] if v else None)
 
     @staticmethod
     def _final_raw(out_lines):
@@ -254,7 +271,7 @@ class C07(Check):
         combined evidence lines when the final group composition / registry size / reachability differ."""
         f1, o1 = self.work("fresh_rt.ops"), self.work("fresh_rt.out")
         with open(f1, "w") as fh:
-            fh.write("\n".join(runner.strip_obs(l) for l in case_lines) + "\nG\nQ -\n")
+            fh.write("\n".join(runner.strip_obs(l) for l in case_lines) + "\nG\nV\nQ -\n")
         try:
             rc, _ = self._harness_ops(harness, f1, o1, timeout=120)
         except subprocess.TimeoutExpired:
@@ -406,6 +423,22 @@ class C07(Check):
         # 2. direct-object route: exhaustive small graphs x states, random graphs with runtime add/remove, chains
         save = self.work("gen.out")
         hrc, herr, drc, lines = runner.pipeline([harness, "gen", "--seed", str(seed), "--tier", tier], [driver], save)
+        if hrc < 0:
+            # the real code died (VERIFY / segmentation fault) in the middle of a generated case: the harness flushed what it
+            # had printed (signal handler), so the last case of the output is the failing input.  What was observed before
+            # that point is evaluated as usual (a wrong answer usually precedes the crash).
+            if drc == 0 and any(l.startswith("STATS") for l in lines):
+                self._collect(res, [l for l in lines if not l.startswith("BADLINE")], save, harness, driver, "obj")
+            whole = [l for l in open(save, errors="replace").read().splitlines() if l.strip()]
+            cases = self._split_cases(whole)
+            last = cases[-1] if cases else whole
+            # the operation that was executing when the process died may not have been printed (Q, G, V print afterwards)
+            for tail in ([], ["Q"], ["G"], ["V"]):
+                if self._aborts(harness, last + tail):
+                    last = last + tail
+                    break
+            self._abort_finding(res, harness, last, hrc)
+            return res
         if hrc != 0:
             raise core.TieBroken("harness:c07:run", f"rc={hrc}\n{herr}")
         if drc != 0:
@@ -421,7 +454,7 @@ class C07(Check):
         cases = self._split_cases(gp.stdout.splitlines())
         for c in cases:
             if c[0].startswith("C cfg rt"):
-                c += ["G", "Q -"]          # final observation of the runtime cases (compared with a fresh load)
+                c += ["G", "V", "Q -"]     # final observation of the runtime cases (compared with a fresh load)
         save_cfg = self.work("cfg.out")
         self._cfg_abort = None
         self._run_cfg_cases(harness, cases, save_cfg)
@@ -452,7 +485,10 @@ class C07(Check):
                     "ConfigObjectUtility::CreateObject (about 40% closing a cycle: must be refused and leave dependency counts, group "
                     "composition and registry size unchanged), deletions through DeleteObject, GetDependencyGroups() composition and "
                     "registry size compared with the registry model after every step, and the final state compared with a fresh process "
-                    "loading the same final set. evaluations = IsReachable answers compared (nodes x 3 aspects per "
+                    "loading the same final set (group composition, reachability, parents/children/reverse dependencies); 'shared' cases (obj and "
+                    "runtime route): two children with identical composite-key sets grouped differently (plain / redundancy group / other name) x "
+                    "member variation (ignore_soft_states, disable flags, filter) x order x all 16 parent states x removal and re-addition; "
+                    "V lines: GetParents/GetChildren/GetReverseDependencies of every checkable after additions and removals. evaluations = IsReachable answers compared (nodes x 3 aspects per "
                     "query) + loads; a case is non-trivial when some checkable was unreachable in some aspect or a load was rejected; "
                     "distinct by hash of the operation sequence (counted by the Lean driver)")
         res.samples = samples
